@@ -81,6 +81,9 @@ def _compare(tier, model: Model, what):
     if (snap["minT"], snap["maxT"]) != (model.minT, model.maxT):
         raise Violation("span-differs", f"{what}: span [{snap['minT']},{snap['maxT']}] != model [{model.minT},{model.maxT}]")
     models.check_wellformed(snap, what)
+    want_ts = sorted({x for e in model.entries for x in e[:-1]})
+    if list(tier.timestamps) != want_ts:
+        raise Violation("timestamps-stale", f"{what}: tier.timestamps {list(tier.timestamps)} != {want_ts}")
     with quiet():
         if tier.validate("silence") is not True:
             raise Violation("invalid-state", f"{what}: validate() False")
